@@ -67,6 +67,7 @@ ASSUMPTIONS = [
 ]
 
 PASSES = list(common_passes.__all__)
+C_API_PASSES = {"CheckerPass", "ShapeInferencePass"}
 API = {"model": "Model.clone", "graph": "Graph.clone", "function": "Function.clone", "view": "GraphView.clone"}
 
 
@@ -75,7 +76,7 @@ def plan(tier: str) -> dict:
     # one case costs ~0.1 CPU-second; quick is sized for ~25-35 s wall on 16 idle cores and is cut by
     # budget_s on a loaded machine, so the floors (both tiers) are what a 10x overloaded machine still produces
     return {
-        "cases": 2600 if quick else 60000,
+        "cases": 3200 if quick else 60000,
         "shards": 16,
         "budget_s": 40 if quick else 540,
         "floors": {
@@ -118,6 +119,33 @@ def without_value_info(data: bytes) -> bytes:
     g.ParseFromString(data)
     del g.value_info[:]
     return g.SerializeToString(deterministic=True)
+
+
+def without_attr_tensor_names(data: bytes, proto_type) -> bytes:
+    """Proto bytes with the names of attribute tensors blanked (tensors are shared between the
+    copies and Value.name = ... renames the backing tensor)."""
+    p = proto_type()
+    p.ParseFromString(data)
+
+    def graph(g):
+        for n in g.node:
+            for a in n.attribute:
+                if a.HasField("t"):
+                    a.t.name = ""
+                for t in a.tensors:
+                    t.name = ""
+                if a.HasField("g"):
+                    graph(a.g)
+                for sg in a.graphs:
+                    graph(sg)
+
+    if hasattr(p, "graph"):
+        graph(p.graph)
+        for f in p.functions:
+            graph(f)
+    else:
+        graph(p)
+    return p.SerializeToString(deterministic=True)
 
 
 def build_source(src: dict) -> Built:
@@ -592,8 +620,13 @@ def run_pass(out: Outcome, desc, model, w_orig, name: str, tail: str) -> None:
                 pa = proto_bytes(model)
             except Exception:  # noqa: BLE001
                 pa = None
+            ptype = type(ir.to_proto(model)) if pa != pb and pa is not None else None
             if pa != pb and label != "functionalize":
                 c[f"report_only_direct_pass_changed_input:{name}"] += 1
+            elif ptype is not None and without_attr_tensor_names(pa, ptype) == without_attr_tensor_names(pb, ptype):
+                # the pass renamed a value of its copy whose const_value is a tensor that also is an
+                # attribute of the input model; same facet as report_only_shared_tensor_renamed
+                c["report_only_shared_tensor_renamed_changes_serialised_attribute_tensor_name"] += 1
             elif pa != pb:
                 out.add(f"{label.split('(')[0]}-changed-input|{name}|proto",
                         f"{label} {name}: the serialised input model differs afterwards: "
@@ -624,9 +657,13 @@ def make_desc(ctx, case: int, rng):
     desc = {"src": src, "target": target, "deep": rng.random() < 0.5, "allow": rng.random() < 0.7,
             "side": rng.choice(["clone", "orig"]), "passes": []}
     if target["kind"] == "model" and src["kind"] == "gen":
+        # onnx's C++ shape inference / checker can crash the process (SIGSEGV) on the structural family
+        # (If/Loop/Split nodes that only look like the standard operators); the two passes that call
+        # into it are run on the plausible 'exec' family only
+        menu = PASSES if src["spec"]["family"] == "exec" else [p for p in PASSES if p not in C_API_PASSES]
         k = 6 if src["spec"]["family"] == "exec" else 3
-        start = rng.randrange(len(PASSES))
-        desc["passes"] = [PASSES[(start + 7 * j) % len(PASSES)] for j in range(k)]
+        start = rng.randrange(len(menu))
+        desc["passes"] = [menu[(start + 7 * j) % len(menu)] for j in range(k)]
     return desc, b
 
 
